@@ -272,6 +272,30 @@ def conc(case):
         ctx.check_concrete(len(log) == n0 and rs == ['stored'], 'control-keywords', dict(info, kw='store_cache_value'))
         rs2 = obj.m(a=w, b=7)
         ctx.check_concrete(len(log) == n0 and rs2 == ['stored'], 'control-keywords', dict(info, kw='store_cache_value then call'))
+        # a result that is None is a result: the method runs once
+        logn = []
+        nsn = {'log': logn}
+        exec("def m(self, a):\n    log.append(a)\n    return None\n", nsn)
+        clsn = type('ObjN', (), {'m': C.cached()(nsn['m'])})
+        on = clsn()
+        on.cache = C.JsonCache(fs.path('/cachen')) if use_file else C.InMemoryCache()
+        r_a, r_b = on.m(1), on.m(a=1)
+        ctx.check_concrete(len(logn) == 1 and r_a is None and r_b is None, 'one-entry<=>same-binding',
+                           dict(info, what='method returning None', executions=len(logn)))
+        # versions are separate from each other and from the unversioned method, whatever their value
+        versions = [None, 'v1', 0, '', 'v2']
+        shared = C.JsonCache(fs.path('/cachev')) if use_file else C.InMemoryCache()
+        counts = []
+        for ver in versions:
+            lg = []
+            kw = {} if ver is None else {'version': ver}
+            o = make_class(C, 'a', 'call', lg, **kw)()
+            o.cache = shared
+            o.m(1)
+            o.m(1)
+            counts.append(len(lg))
+        ctx.check_concrete(counts == [1] * len(versions), 'methods-and-versions-separate',
+                           dict(info, versions=[repr(v) for v in versions], executions=counts))
         # ignored arguments never matter
         logi = []
         clsi = make_class(C, 'a,*,verbose=False', 'call', logi, ignore_kwargs=['verbose'])
